@@ -476,6 +476,9 @@ func (h *MHandle) DoSeek(off int64, whence int) HOut {
 }
 
 func (h *MHandle) writeAt(p []byte, off int64) {
+	if len(p) == 0 {
+		return // a zero-length write has no effect, not even past the end
+	}
 	end := off + int64(len(p))
 	if end > int64(len(h.N.Data)) {
 		nd := make([]byte, end)
